@@ -9,6 +9,7 @@
   every value (unbounded `Int`), every chain shape that satisfies the stated hypotheses.
 -/
 import RbModel.Lemmas.Gpos
+import RbModel.Lemmas.GposMark
 import RbModel.Gen.Gpos
 
 namespace RbModel.Gpos
@@ -276,6 +277,212 @@ example : ∃ q dep, reverseCursiveMinorOffset (fuelFor #[{ chain := 1, atype :=
     = .ok (q, dep) := ⟨_, _, rfl⟩
 
 end RbModel.Gpos
+
+namespace RbModel.GposMark
+open RbModel.Gpos
+
+/-! ## which glyph a mark is attached to (model: GposMark.lean — the `last_base` cache, MarkToBase / MarkToLigature,
+    the forward driver; tied to the crate by the `gpos-lookup` stream through the real `apply_layout_table`)
+
+    `lastOk p n` is the specification: the nearest position before `n` whose glyph is admissible (`p`). -/
+
+/-- `lastOk` is "the nearest admissible glyph before `n`", or `-1` when there is none. -/
+theorem C07_target_nearest (p : Nat → Bool) (n : Nat) :
+    (lastOk p n = -1 ∧ ∀ j, j < n → p j = false) ∨
+    (∃ k : Nat, lastOk p n = (k : Int) ∧ k < n ∧ p k = true ∧ ∀ j, k < j → j < n → p j = false) := by
+  have hge := lastOk_ge p n
+  by_cases h : lastOk p n = -1
+  · exact Or.inl ⟨h, lastOk_none h⟩
+  · have h0 : 0 ≤ lastOk p n := by omega
+    have hk : lastOk p n = ((lastOk p n).toNat : Int) := (Int.toNat_of_nonneg h0).symm
+    exact Or.inr ⟨_, hk, lastOk_some hk⟩
+
+example : lastOk (fun j => j == 1 || j == 3) 3 = 1 ∧ lastOk (fun j => j == 1 || j == 3) 5 = 3 ∧
+    lastOk (fun j => j == 1 || j == 3) 1 = -1 := by decide
+
+/-- The `last_base` / `last_base_until` cache of MarkToBase and MarkToLigature is an optimisation only.  For every
+    admissibility test `ok` (total on the glyphs before `idx`, with pure reading `p`), every `idx` and every
+    consistent cache state — `last_base` is the nearest admissible glyph before `last_base_until`, whatever
+    `last_base_until` is: behind `idx`, at `idx`, or beyond it (stale: revisited position, nested lookup) — the cached
+    search returns the nearest admissible glyph before `idx` and leaves the consistent cache `(that glyph, idx)`.
+    The fresh cache `(-1, 0)` that `set_lookup_mask` installs before every lookup is consistent (`lastOk p 0 = -1`). -/
+theorem C07_target_cache (ok : Nat → GM Bool) (p : Nat → Bool) (idx untl : Nat)
+    (hok : ∀ j, j < idx → ok j = .ok (p j)) :
+    lastBaseSearch ok idx (lastOk p untl) untl = .ok (lastOk p idx, idx) ∧ lastOk p 0 = -1 :=
+  ⟨lastBaseSearch_eq idx untl hok, rfl⟩
+
+/-- non-vacuity: cache behind (scan of the new stretch only), stale cache (reset and full scan) -/
+example : (lastBaseSearch (fun j => .ok (j == 1 || j == 3)) 5 1 2).toOption = some (3, 5) ∧
+    (lastBaseSearch (fun j => .ok (j == 1 || j == 3)) 3 3 4).toOption = some (1, 3) := by decide
+
+/-- Which glyphs the backward search stops at: not a mark by the GDEF class held in `glyph_props` (the subtable's
+    coverages play no part), inside the lookup's feature range, and not a default ignorable the GPOS iterator passes
+    over (every one, except ZWJ under manual-ZWJ features). -/
+theorem C07_target_admissible (c : Ctx) (x : Info) :
+    (baseIt c).match_ c.font x = .matched ↔
+      (Gsub.isMark x = false ∧ x.mask &&& c.lookupMask ≠ 0 ∧
+        ¬ (Gsub.isDefaultIgnorable x = true ∧ (c.autoZwj = true ∨ Gsub.isZwj x = false))) :=
+  base_match_iff c x
+
+/-- One MarkToLigature application, from any consistent cache: a consistent cache is left; nothing else changes
+    when it does not apply; when it applies, the glyph at `idx` is linked to the NEAREST admissible glyph before it,
+    with offset = (anchor of the component `ligComponent` chooses, for the mark's class) − (the mark's anchor). -/
+theorem C07_mark_lig_call {c c' : Ctx} {mc lc : Gsub.Cov} {marks : MarkArray} {ligs : List Matrix} {applied : Bool}
+    (h : markLigApply c mc lc marks ligs = .ok (c', applied))
+    (hps : c.perSyllable = false) (hlen : c.idx < c.info.length) (hinv : CacheOk (ligAdm c) c) :
+    Frame c c' ∧ CacheOk (ligAdm c) c' ∧
+    (applied = false → c'.pos = c.pos ∧ c'.idx = c.idx ∧ c'.hasAttach = c.hasAttach) ∧
+    (applied = true → c'.idx = c.idx + 1 ∧ c'.hasAttach = true ∧
+       ∃ (t : Nat) (cur lig : Info) (mi : Nat) (M : Matrix) (cls : Nat) (mx my bx byy : Int),
+         lastOk (ligAdm c) c.idx = (t : Int) ∧ c.info[c.idx]? = some cur ∧ c.info[t]? = some lig ∧
+         Gsub.Cov.index mc (cur.gid % 65536) = some mi ∧ marks[mi]? = some (cls, mx, my) ∧
+         (Gsub.Cov.index lc (lig.gid % 65536)).bind (fun k => ligs[k]?) = some M ∧
+         M.get (ligComponent lig cur M.rows) cls = some (bx, byy) ∧
+         AttachedTo c c' t mx my bx byy) :=
+  markLigApply_spec h hps hlen hinv
+
+/-- non-vacuity: ligature L (3 components, ligature id 1), a mark of component 2 (same id) and a trailing mark
+    without id: the first lands on component 2, the second on the last component, both linked to L -/
+example : ((applyForward [.markLig [7] [4] [(0, 1, 1)] [{ rows := 3, cols := 1, flat := [some (10, 0), some (20, 0), some (30, 0)] }]]
+      3 { font := {}, info := [{ gid := 4, mask := 1, var1 := 0x24 + (32 + 16 + 3) * 65536 },
+                                { gid := 7, mask := 1, var1 := 8 + (32 + 2) * 65536 }, { gid := 7, mask := 1, var1 := 8 }],
+          len := 3, pos := #[{ xa := 900 }, {}, {}] }).toOption.map (·.pos)) =
+    some #[{ xa := 900 }, { xo := 19, yo := -1, chain := -1, atype := 1 }, { xo := 29, yo := -1, chain := -2, atype := 1 }] := by
+  decide +kernel
+
+/-- The component: the mark's own component number when mark and ligature carry the same non-zero ligature id
+    (clamped to the components the font describes), otherwise the last component. -/
+theorem C07_lig_component (lig cur : Info) (n : Nat) (hn : 0 < n) :
+    ligComponent lig cur n < n ∧
+    ((Gsub.ligId lig ≠ 0 ∧ Gsub.ligId lig = Gsub.ligId cur ∧ 0 < Gsub.ligComp cur) →
+      ligComponent lig cur n = min (Gsub.ligComp cur) n - 1) ∧
+    (¬ (Gsub.ligId lig ≠ 0 ∧ Gsub.ligId lig = Gsub.ligId cur ∧ 0 < Gsub.ligComp cur) → ligComponent lig cur n = n - 1) := by
+  unfold ligComponent
+  refine ⟨?_, ?_, ?_⟩
+  · split <;> omega
+  · rintro ⟨h1, h2, h3⟩
+    simp [h1, h2, h3]
+    rw [← h2]; simp [h1]
+  · intro h
+    split
+    · rename_i hc
+      simp only [Bool.and_eq_true, bne_iff_ne, ne_eq, beq_iff_eq, decide_eq_true_eq] at hc
+      exact absurd ⟨hc.1.1, hc.1.2, hc.2⟩ h
+    · rfl
+
+/-- One MarkToBase application: the same with the base anchor of the mark's class. -/
+theorem C07_mark_base_call {c c' : Ctx} {mc bc : Gsub.Cov} {marks : MarkArray} {anchors : Matrix} {applied : Bool}
+    (h : markBaseApply c mc bc marks anchors = .ok (c', applied))
+    (hps : c.perSyllable = false) (hlen : c.idx < c.info.length) (hinv : CacheOk (baseAdm c bc) c) :
+    Frame c c' ∧ CacheOk (baseAdm c bc) c' ∧
+    (applied = false → c'.pos = c.pos ∧ c'.idx = c.idx ∧ c'.hasAttach = c.hasAttach) ∧
+    (applied = true → c'.idx = c.idx + 1 ∧ c'.hasAttach = true ∧
+       ∃ (t : Nat) (cur base : Info) (mi bi : Nat) (cls : Nat) (mx my bx byy : Int),
+         lastOk (baseAdm c bc) c.idx = (t : Int) ∧ c.info[c.idx]? = some cur ∧ c.info[t]? = some base ∧
+         Gsub.Cov.index mc (cur.gid % 65536) = some mi ∧ marks[mi]? = some (cls, mx, my) ∧
+         Gsub.Cov.index bc (base.gid % 65536) = some bi ∧ anchors.get bi cls = some (bx, byy) ∧
+         AttachedTo c c' t mx my bx byy) :=
+  markBaseApply_spec h hps hlen hinv
+
+/-- a MarkToBase target is in particular a glyph the iterator stops at (`C07_target_admissible`) -/
+theorem C07_base_is_admissible {c : Ctx} {bc : Gsub.Cov} {j : Nat} (h : baseAdm c bc j = true) :
+    ∃ x, c.info[j]? = some x ∧ (baseIt c).match_ c.font x = .matched := by
+  have := baseAdm_lig h
+  unfold ligAdm at this
+  split at this
+  · rename_i x hx; exact ⟨x, hx, by simpa using this⟩
+  · cases this
+
+/-- The seed scenario as a model run (B = GDEF base; S = GDEF base listed in the mark AND the base coverage;
+    M = GDEF mark): S is linked to B, M to S (the nearest non-mark), not to the older cache entry B. -/
+example : ((applyForward [.markBase [2, 3] [1, 2] [(0, 0, 0), (0, 50, 20)] { rows := 2, cols := 1, flat := [some (800, 100), some (300, 650)] }]
+      3 { font := {}, info := [{ gid := 1, mask := 1, var1 := 2 }, { gid := 2, mask := 1, var1 := 2 }, { gid := 3, mask := 1, var1 := 8 }],
+          len := 3, pos := #[{ xa := 1000 }, { xa := 600 }, {}] }).toOption.map (·.pos)) =
+    some #[{ xa := 1000 }, { xa := 600, xo := 800, yo := 100, chain := -1, atype := 1 },
+           { xo := 250, yo := 630, chain := -1, atype := 1 }] := by
+  decide +kernel
+
+/-- A whole forward pass (`apply_forward`) of a lookup whose subtables search with one admissibility predicate `p`
+    (MarkToLigature subtables; MarkToBase with `baseAdm … = p`), from a consistent cache: the cache stays
+    consistent through every call, and every glyph is either untouched or linked — as a mark, with its advance
+    untouched — to the NEAREST admissible glyph before it.  (`apply_layout_table` starts every lookup with the
+    fresh cache: `C07_pass_starts_fresh`.) -/
+theorem C07_mark_pass_targets {p : Nat → Bool} {subs : List Sub} (fuel : Nat) {c r : Ctx}
+    (h : applyForward subs fuel c = .ok r) (hs : SubsAdm c p subs)
+    (hps : c.perSyllable = false) (hlen : c.len ≤ c.info.length) (hinv : CacheOk p c) :
+    Frame c r ∧ CacheOk p r ∧ r.pos.size = c.pos.size ∧
+    ∀ i, r.pos[i]? = c.pos[i]? ∨
+      (c.idx ≤ i ∧ i < c.len ∧ ∃ (t : Nat) (a b : Pos), lastOk p i = (t : Int) ∧ c.pos[i]? = some a ∧ r.pos[i]? = some b ∧
+        b.atype = ATTACH_MARK ∧ b.chain = (t : Int) - (i : Int) ∧ i - t ≤ CHAIN_MAX ∧ b.xa = a.xa ∧ b.ya = a.ya) :=
+  applyForward_targets fuel h hs hps hlen hinv
+
+/- Full statement without the `SubsAdm` hypothesis (FALSE of the code, see `known_C07_base_cache_shared`): "every
+   MarkToBase subtable links the glyph to the nearest glyph admissible under ITS OWN base coverage".  The subtables
+   of one lookup share the cache, and `baseAdm` depends on the subtable's base coverage for the later glyphs of a
+   MultipleSubst sequence (harfbuzz#4124): a subtable called at the same `idx` after another one reuses the base
+   found under the other one's coverage.  HarfBuzz's `c->last_base` is shared in the same way. -/
+
+/-- witness: `<6 6 5>` where `6 6` is a MultipleSubst sequence and 5 a mark; subtable 2 (base coverage {6}) alone
+    links the mark to the second 6 (its nearest admissible glyph); preceded by subtable 1 (base coverage {1}: never
+    applies here) it links the mark to the first 6. -/
+theorem known_C07_base_cache_shared :
+    let info : List Info := [{ gid := 6, mask := 1, var1 := 0x52 }, { gid := 6, mask := 1, var1 := 0x52 + 65536 }, { gid := 5, mask := 1, var1 := 8 }]
+    let c : Ctx := { font := {}, info := info, len := 3, pos := #[{ xa := 500 }, { xa := 500 }, {}] }
+    let sub1 : Sub := .markBase [5] [1] [(0, 0, 0)] { rows := 1, cols := 1, flat := [some (111, 111)] }
+    let sub2 : Sub := .markBase [5] [6] [(0, 10, 20)] { rows := 1, cols := 1, flat := [some (300, 400)] }
+    ((applyForward [sub2] 3 c).toOption.map (fun r => r.pos.map (·.chain))) = some #[0, 0, -1] ∧
+    ((applyForward [sub1, sub2] 3 c).toOption.map (fun r => r.pos.map (·.chain))) = some #[0, 0, -2] ∧
+    lastOk (baseAdm c [6]) 2 = 1 := by
+  decide +kernel
+
+/-- non-vacuity of `SubsAdm` / `CacheOk`: a MarkToLigature lookup and the fresh cache -/
+example : ∃ (c : Ctx) (p : Nat → Bool), SubsAdm c p [.markLig [3] [1] [(0, 0, 0)] []] ∧ CacheOk p c ∧ c.perSyllable = false :=
+  ⟨{ font := {}, info := [], len := 0, pos := #[] }, _,
+    fun s hs => Or.inl ⟨_, _, _, _, List.mem_singleton.mp hs, rfl⟩, rfl, rfl⟩
+
+/-- `apply_layout_table` hands every lookup the fresh cache and cursor 0 (`set_lookup_mask`, `apply_string`). -/
+theorem C07_pass_starts_fresh (lookups : List Lookup) (c : Ctx) (m : LookupMap) (rest : List LookupMap) (l : Lookup)
+    (hl : lookups[m.index]? = some l) (hne : c.len ≠ 0) (hm : m.mask ≠ 0) :
+    applyLayoutTable lookups c (m :: rest) =
+      match applyForward l.subtables c.len
+          { c with lookupMask := m.mask, lastBase := -1, lastBaseUntil := 0, autoZwj := m.autoZwj,
+                   perSyllable := m.perSyllable, lookupProps := l.props, idx := 0 } with
+      | .error e => .error e
+      | .ok c' => applyLayoutTable lookups c' rest := by
+  simp [applyLayoutTable, hl, applyString, hne, hm]
+  rfl
+
+/-- End to end for such a lookup: from `position_start` (no links) through the forward pass to
+    `position_finish_offsets`, in every direction: every glyph the pass linked lies, in final pen coordinates,
+    exactly its stored offset (= target anchor − own anchor, `C07_mark_lig_call` / `C07_mark_base_call`) away from
+    the nearest admissible glyph `t` before it — `t` is admissible and nothing between `t` and the glyph is. -/
+theorem C07_mark_pass_coincide (d : Dir) {p : Nat → Bool} {subs : List Sub} {c r : Ctx}
+    (h : applyForward subs c.len c = .ok r) (hidx : c.idx = 0) (hs : SubsAdm c p subs)
+    (hps : c.perSyllable = false) (hlen : c.len ≤ c.info.length) (hpl : c.len ≤ c.pos.size)
+    (hfresh : c.lastBase = -1 ∧ c.lastBaseUntil = 0)
+    (hstart : ∀ (k : Nat) (a : Pos), c.pos[k]? = some a → a.chain = 0) :
+    ∃ q dm, positionFinishOffsets r.pos c.len d true = .ok (q, dm) ∧
+      ∀ (i : Nat) (b : Pos), i < c.len → r.pos[i]? = some b → b.chain ≠ 0 →
+        ∃ t : Nat, lastOk p i = (t : Int) ∧ t < i ∧ p t = true ∧ (∀ j, t < j → j < i → p j = false) ∧
+          penOrigin (visible q c.len d) (outIdx d c.len i) =
+            ((penOrigin (visible q c.len d) (outIdx d c.len t)).1 + b.xo,
+             (penOrigin (visible q c.len d) (outIdx d c.len t)).2 + b.yo) :=
+  pass_coincide d h hidx hs hps hlen hpl hfresh hstart
+
+/-- non-vacuity of `C07_mark_pass_coincide`: the context of the seed scenario satisfies every hypothesis -/
+example : ∃ (c : Ctx) (p : Nat → Bool) (subs : List Sub), c.idx = 0 ∧ SubsAdm c p subs ∧ c.perSyllable = false ∧
+    c.len ≤ c.info.length ∧ c.len ≤ c.pos.size ∧ (c.lastBase = -1 ∧ c.lastBaseUntil = 0) ∧
+    (∀ (k : Nat) (a : Pos), c.pos[k]? = some a → a.chain = 0) ∧ (applyForward subs c.len c).toOption.isSome = true := by
+  refine ⟨{ font := {}, info := [{ gid := 1, mask := 1, var1 := 2 }, { gid := 2, mask := 1, var1 := 2 }, { gid := 3, mask := 1, var1 := 8 }],
+            len := 3, pos := #[{ xa := 1000 }, { xa := 600 }, {}] }, _,
+    [.markBase [2, 3] [1, 2] [(0, 0, 0), (0, 50, 20)] { rows := 2, cols := 1, flat := [some (800, 100), some (300, 650)] }],
+    rfl, fun s hs => Or.inr ⟨_, _, _, _, List.mem_singleton.mp hs, rfl⟩, rfl, by decide, by decide, ⟨rfl, rfl⟩, ?_, by decide +kernel⟩
+  intro k a hk
+  have hk3 : k < 3 := lt_of_get? hk
+  have : k = 0 ∨ k = 1 ∨ k = 2 := by omega
+  rcases this with rfl | rfl | rfl <;> simp at hk <;> subst hk <;> rfl
+
+end RbModel.GposMark
 
 namespace RbModel.Kern
 open RbModel.Gpos
